@@ -570,4 +570,772 @@ theorem mergeNodes_posOf_old (k : SplitConsts R) (c : Cell R) (a b : Nat) (na nb
   by_cases hab : b = a
   · subst hab; exact deleteNode_posOf_self _ _
   · rw [deleteNode_posOf_ne _ hab]; exact deleteNode_posOf_self _ _
+
+/-! ### the check set: sizes -/
+
+theorem insertGo_length (e : Edge) : ∀ s : List Edge, (EdgeSet.insert.go e s).1.length ≤ s.length + 1
+  | [] => by simp [EdgeSet.insert.go]
+  | x :: xs => by
+    unfold EdgeSet.insert.go
+    split
+    · simp
+    · split
+      · simp
+      · have := insertGo_length e xs
+        simp only [List.length_cons]
+        omega
+
+theorem insert_length (s : EdgeSet) (e : Edge) : (EdgeSet.insert s e).1.length ≤ s.length + 1 :=
+  insertGo_length e s
+
+theorem update_length (s : EdgeSet) (e : Edge) : (EdgeSet.update s e).length = s.length := by
+  unfold EdgeSet.update; simp
+
+theorem erase_length (s : EdgeSet) (k : Nat) : (EdgeSet.erase s k).length ≤ s.length := by
+  unfold EdgeSet.erase; exact List.length_filter_le _ _
+
+def updF (chk : CheckSet) (x y old new : Nat) : CheckSet :=
+  match EdgeSet.find? chk (Edge.keyOf x y) with
+  | some ed => EdgeSet.update chk (ed.replaceFace old new)
+  | none => chk
+
+theorem updF_length (chk : CheckSet) (x y old new : Nat) : (updF chk x y old new).length = chk.length := by
+  unfold updF; split
+  · exact update_length _ _
+  · rfl
+
+/-- `split_edge` inserts at most four edges into the check set -/
+theorem splitEdge_chk_length {fn : Fn R} {k : SplitConsts R} {c c' : Cell R} {e : Edge} {chk chk' : CheckSet}
+    (h : splitEdge fn k c e chk = .ok (c', chk')) : chk'.length ≤ chk.length + 4 := by
+  unfold splitEdge at h
+  simp only [] at h
+  obtain ⟨f1id, _, h⟩ := bind_ok h
+  obtain ⟨f2id, _, h⟩ := bind_ok h
+  obtain ⟨f1, _, h⟩ := bind_ok h
+  obtain ⟨f2, _, h⟩ := bind_ok h
+  obtain ⟨na, hna, h⟩ := bind_ok h
+  obtain ⟨nb, hnb, h⟩ := bind_ok h
+  obtain ⟨cc, _, h⟩ := bind_ok h
+  obtain ⟨dd, _, h⟩ := bind_ok h
+  obtain ⟨c2, h2, h⟩ := bind_ok h
+  obtain ⟨c3, h3, h⟩ := bind_ok h
+  obtain ⟨⟨c4, f3, f5⟩, h4, h⟩ := bind_ok h
+  obtain ⟨⟨c5, f4, f6⟩, h5, h⟩ := bind_ok h
+  simp only [] at h
+  obtain ⟨eea, _, h⟩ := bind_ok h
+  obtain ⟨eeb, _, h⟩ := bind_ok h
+  obtain ⟨eec, _, h⟩ := bind_ok h
+  obtain ⟨eed, _, h⟩ := bind_ok h
+  cases h
+  show (updF (updF (updF (updF _ _ _ _ _) _ _ _ _) _ _ _ _) _ _ _ _).length ≤ _
+  simp only [updF_length]
+  have i1 := insert_length chk eea
+  have i2 := insert_length (EdgeSet.insert chk eea).1 eeb
+  have i3 := insert_length (EdgeSet.insert (EdgeSet.insert chk eea).1 eeb).1 eec
+  have i4 := insert_length (EdgeSet.insert (EdgeSet.insert (EdgeSet.insert chk eea).1 eeb).1 eec).1 eed
+  omega
+
+/-! ### sizes of the face array -/
+
+theorem facesSize_updFaceGeom (fn : Fn R) (c : Cell R) (fid : Nat) :
+    (updFaceGeom fn c fid).faces.size = c.faces.size := by
+  unfold updFaceGeom
+  split
+  · rfl
+  · simp
+
+theorem facesSize_setFaceType (c : Cell R) (fid t : Nat) : (setFaceType c fid t).faces.size = c.faces.size := by
+  unfold setFaceType
+  split
+  · simp
+  · rfl
+
+theorem facesSize_deleteFace {c c' : Cell R} {fid : Nat} (h : deleteFace c fid = .ok c') :
+    c'.faces.size = c.faces.size := by
+  unfold deleteFace at h
+  split at h
+  · cases h
+  · obtain ⟨s1, _, h⟩ := bind_ok h
+    obtain ⟨s2, _, h⟩ := bind_ok h
+    obtain ⟨s3, _, h⟩ := bind_ok h
+    cases h
+    simp
+
+theorem facesSize_addFace {fn : Fn R} {c c' : Cell R} {a b d fid : Nat}
+    (h : addFace fn c a b d = .ok (c', fid)) : c'.faces.size ≤ c.faces.size + 1 := by
+  unfold addFace at h
+  cases hff : c.freeFaces with
+  | nil =>
+    simp only [hff] at h
+    obtain ⟨s4, _, h⟩ := bind_ok h
+    obtain ⟨s5, _, h⟩ := bind_ok h
+    obtain ⟨s6, _, h⟩ := bind_ok h
+    cases h
+    rw [facesSize_updFaceGeom]; simp
+  | cons i rest =>
+    simp only [hff] at h
+    obtain ⟨s4, _, h⟩ := bind_ok h
+    obtain ⟨s5, _, h⟩ := bind_ok h
+    obtain ⟨s6, _, h⟩ := bind_ok h
+    cases h
+    rw [facesSize_updFaceGeom]; simp
+
+theorem facesSize_two_addFace {fn : Fn R} {c : Cell R} {o : Bool} {p q r s t u v w x y z a' : Nat} {res : Cell R × Nat × Nat}
+    (h : (if o = true then do
+              let __x ← addFace fn c p q r
+              match __x with
+                | (c, f3) => do
+                  let __x ← addFace fn c s t u
+                  match __x with
+                    | (c, f5) => pure (c, f3, f5)
+            else do
+              let __x ← addFace fn c v w x
+              match __x with
+                | (c, f3) => do
+                  let __x ← addFace fn c y z a'
+                  match __x with
+                    | (c, f5) => pure (c, f3, f5) : Except Err (Cell R × Nat × Nat)) = .ok res) :
+    res.1.faces.size ≤ c.faces.size + 2 := by
+  split at h
+  all_goals
+    obtain ⟨⟨c1, f3⟩, h1, h⟩ := bind_ok h
+    obtain ⟨⟨c2, f5⟩, h2, h⟩ := bind_ok h
+    cases h
+    have := facesSize_addFace h1
+    have := facesSize_addFace h2
+    simp only; omega
+
+theorem facesSize_addNode (c : Cell R) (p m : V3 R) : (addNode c p m).1.faces = c.faces := by
+  unfold addNode; cases c.freeNodes <;> rfl
+
+/-- `split_edge` enlarges the face array by at most four slots -/
+theorem splitEdge_facesSize {fn : Fn R} {k : SplitConsts R} {c c' : Cell R} {e : Edge} {chk chk' : CheckSet}
+    (h : splitEdge fn k c e chk = .ok (c', chk')) : c'.faces.size ≤ c.faces.size + 4 := by
+  unfold splitEdge at h
+  simp only [] at h
+  obtain ⟨f1id, _, h⟩ := bind_ok h
+  obtain ⟨f2id, _, h⟩ := bind_ok h
+  obtain ⟨f1, _, h⟩ := bind_ok h
+  obtain ⟨f2, _, h⟩ := bind_ok h
+  obtain ⟨na, hna, h⟩ := bind_ok h
+  obtain ⟨nb, hnb, h⟩ := bind_ok h
+  obtain ⟨cc, _, h⟩ := bind_ok h
+  obtain ⟨dd, _, h⟩ := bind_ok h
+  obtain ⟨c2, h2, h⟩ := bind_ok h
+  obtain ⟨c3, h3, h⟩ := bind_ok h
+  obtain ⟨⟨c4, f3, f5⟩, h4, h⟩ := bind_ok h
+  obtain ⟨⟨c5, f4, f6⟩, h5, h⟩ := bind_ok h
+  simp only [] at h
+  obtain ⟨eea, _, h⟩ := bind_ok h
+  obtain ⟨eeb, _, h⟩ := bind_ok h
+  obtain ⟨eec, _, h⟩ := bind_ok h
+  obtain ⟨eed, _, h⟩ := bind_ok h
+  cases h
+  have e2 := facesSize_deleteFace h2
+  rw [facesSize_addNode] at e2
+  have e3 := facesSize_deleteFace h3
+  have e4 := facesSize_two_addFace h4
+  have e5 := facesSize_two_addFace h5
+  simp only [facesSize_setFaceType]
+  simp only at e2 e4 e5
+  omega
+
+theorem replaceLoop_sizes {fn : Fn R} {start : Edge} {old new : Nat} (fuel : Nat) :
+    ∀ {c : Cell R} {cur : Option Edge} {faceId : Nat} {del cre : List Edge} {r : Cell R × List Edge × List Edge},
+      replaceNode.loop fn start old new fuel c cur faceId del cre = .ok r →
+      r.1.faces.size = c.faces.size ∧ r.2.2.length ≤ cre.length + fuel := by
+  induction fuel with
+  | zero => intro c cur faceId del cre r h; unfold replaceNode.loop at h; cases h
+  | succ fuel ih =>
+    intro c cur faceId del cre r h
+    unfold replaceNode.loop at h
+    cases cur with
+    | none => cases h
+    | some e =>
+      simp only [] at h
+      obtain ⟨fid1, _, h⟩ := bind_ok h
+      obtain ⟨f, _, h⟩ := bind_ok h
+      obtain ⟨ef1, _, h⟩ := bind_ok h
+      obtain ⟨ef2, _, h⟩ := bind_ok h
+      obtain ⟨x, _, h⟩ := bind_ok h
+      obtain ⟨f', _, h⟩ := bind_ok h
+      split at h
+      · cases h
+        refine ⟨?_, by simp⟩
+        simp only [facesSize_updFaceGeom]; simp
+      · split at h
+        · cases h
+          refine ⟨?_, by simp⟩
+          simp only [facesSize_updFaceGeom]; simp
+        · have := ih h
+          refine ⟨?_, ?_⟩
+          · rw [this.1]; simp only [facesSize_updFaceGeom]; simp
+          · have := this.2; simp only [List.length_append, List.length_cons, List.length_nil] at this; omega
+
+theorem replaceNode_sizes {fn : Fn R} {c c' : Cell R} {start : Edge} {old new : Nat} {del cre : List Edge}
+    (h : replaceNode fn c start old new = .ok (c', del, cre)) :
+    c'.faces.size = c.faces.size ∧ cre.length ≤ c.faces.size + 2 := by
+  unfold replaceNode at h
+  obtain ⟨sf1, _, h⟩ := bind_ok h
+  obtain ⟨⟨c1, d1, cr1⟩, h1, h⟩ := bind_ok h
+  cases h
+  have := replaceLoop_sizes _ h1
+  simp only [List.length_nil, Nat.zero_add] at this
+  exact ⟨by unfold deleteNode; exact this.1, this.2⟩
+
+theorem foldl_erase_length (l : List Edge) : ∀ s : EdgeSet,
+    (l.foldl (fun s ed => EdgeSet.erase s ed.key) s).length ≤ s.length := by
+  induction l with
+  | nil => intro s; exact Nat.le_refl _
+  | cons x xs ih => intro s; exact Nat.le_trans (ih _) (erase_length _ _)
+
+theorem foldl_insertIf_length (p : Edge → Bool) (l : List Edge) : ∀ s : EdgeSet,
+    (l.foldl (fun s ed => if p ed then (EdgeSet.insert s ed).1 else s) s).length ≤ s.length + l.length := by
+  induction l with
+  | nil => intro s; exact Nat.le_refl _
+  | cons x xs ih =>
+    intro s
+    simp only [List.foldl_cons, List.length_cons]
+    refine Nat.le_trans (ih _) ?_
+    split
+    · have := insert_length s x; omega
+    · omega
+
+/-- `merge_edge` keeps the size of the face array and inserts at most `2·(faces.size + 2)` edges into the check set
+    (one per step of the two `replace_node` walks, each bounded by the number of face slots) -/
+theorem mergeEdge_sizes {fn : Fn R} {k : SplitConsts R} {c c' : Cell R} {e : Edge} {chk chk' : CheckSet}
+    (h : mergeEdge fn k c e chk = .ok (c', chk')) :
+    c'.faces.size = c.faces.size ∧ chk'.length ≤ chk.length + 2 * (c.faces.size + 2) := by
+  unfold mergeEdge at h
+  simp only [] at h
+  obtain ⟨f1id, _, h⟩ := bind_ok h
+  obtain ⟨f2id, _, h⟩ := bind_ok h
+  obtain ⟨na, hna, h⟩ := bind_ok h
+  obtain ⟨nb, hnb, h⟩ := bind_ok h
+  obtain ⟨⟨c2, delA, creA⟩, h2, h⟩ := bind_ok h
+  obtain ⟨ebi, _, h⟩ := bind_ok h
+  obtain ⟨⟨c3, delB, creB⟩, h3, h⟩ := bind_ok h
+  obtain ⟨c4, h4, h⟩ := bind_ok h
+  obtain ⟨c5, h5, h⟩ := bind_ok h
+  cases h
+  have s2 := replaceNode_sizes h2
+  rw [facesSize_addNode] at s2
+  have s3 := replaceNode_sizes h3
+  have s4 := facesSize_deleteFace h4
+  have s5 := facesSize_deleteFace h5
+  simp only at s2 s3 s4 s5 ⊢
+  refine ⟨by omega, ?_⟩
+  refine Nat.le_trans (foldl_insertIf_length _ _ _) ?_
+  have := foldl_erase_length (delA ++ delB) chk
+  simp only [List.length_append]
+  omega
+
+/-! ### the swap pass; invariant through split and collapse -/
+
+theorem SameNodes.refl (c : Cell R) : SameNodes c c := ⟨rfl, rfl⟩
+
+/-- `swap_edge` does not touch the node store -/
+theorem sameNodes_swapEdge {fn : Fn R} {c c' : Cell R} {e : Edge} (h : swapEdge fn c e = .ok c') : SameNodes c c' := by
+  unfold swapEdge at h
+  simp only [] at h
+  obtain ⟨f1id, _, h⟩ := bind_ok h
+  obtain ⟨f2id, _, h⟩ := bind_ok h
+  obtain ⟨f1, _, h⟩ := bind_ok h
+  obtain ⟨f2, _, h⟩ := bind_ok h
+  obtain ⟨cc, _, h⟩ := bind_ok h
+  obtain ⟨dd, _, h⟩ := bind_ok h
+  obtain ⟨eac, _, h⟩ := bind_ok h
+  obtain ⟨ecb, _, h⟩ := bind_ok h
+  obtain ⟨ebd, _, h⟩ := bind_ok h
+  obtain ⟨eda, _, h⟩ := bind_ok h
+  obtain ⟨f5, _, h⟩ := bind_ok h
+  obtain ⟨f8, _, h⟩ := bind_ok h
+  obtain ⟨f7, _, h⟩ := bind_ok h
+  obtain ⟨f6, _, h⟩ := bind_ok h
+  split at h
+  · cases h; exact SameNodes.refl c
+  · split at h
+    · cases h; exact SameNodes.refl c
+    · obtain ⟨c1, h1, h⟩ := bind_ok h
+      obtain ⟨c2, h2, h⟩ := bind_ok h
+      obtain ⟨_, _, h⟩ := bind_ok h
+      obtain ⟨_, _, h⟩ := bind_ok h
+      obtain ⟨_, _, h⟩ := bind_ok h
+      obtain ⟨_, _, h⟩ := bind_ok h
+      obtain ⟨⟨c3, f3⟩, h3, h⟩ := bind_ok h
+      obtain ⟨⟨c4, f4⟩, h4, h⟩ := bind_ok h
+      obtain ⟨r5, _, h⟩ := bind_ok h
+      obtain ⟨r8, _, h⟩ := bind_ok h
+      obtain ⟨g3, _, h⟩ := bind_ok h
+      obtain ⟨g4, _, h⟩ := bind_ok h
+      obtain ⟨_, _, h⟩ := bind_ok h
+      obtain ⟨_, _, h⟩ := bind_ok h
+      obtain ⟨_, _, h⟩ := bind_ok h
+      obtain ⟨_, _, h⟩ := bind_ok h
+      cases h
+      refine (sameNodes_deleteFace h1).trans <| (sameNodes_deleteFace h2).trans <| (sameNodes_addFace h3).trans <|
+        (sameNodes_addFace h4).trans ?_
+      exact ⟨(sameNodes_updFaceGeom fn _ _).1.trans (sameNodes_updFaceGeom fn _ _).1,
+        (sameNodes_updFaceGeom fn _ _).2.trans (sameNodes_updFaceGeom fn _ _).2⟩
+
+theorem sameNodes_removeElongatedLoop {fn : Fn R} {k : RefineConsts R} (fuel : Nat) :
+    ∀ {i : Nat} {c c' : Cell R}, removeElongated.loop fn k fuel i c = .ok c' → SameNodes c c' := by
+  induction fuel with
+  | zero => intro i c c' h; unfold removeElongated.loop at h; cases h; exact SameNodes.refl c
+  | succ fuel ih =>
+    intro i c c' h
+    unfold removeElongated.loop at h
+    split at h
+    · cases h; exact SameNodes.refl c
+    · split at h
+      · cases h; exact SameNodes.refl c
+      · split at h
+        · exact ih h
+        · split at h
+          · cases h
+          · split at h
+            · split at h
+              · cases h
+              · rename_i c1 hsw
+                exact (sameNodes_swapEdge hsw).trans (ih h)
+            · exact ih h
+
+/-- the swap pass (`remove_elongated_triangles`) does not touch the node store -/
+theorem sameNodes_removeElongated {fn : Fn R} {k : RefineConsts R} {c c' : Cell R}
+    (h : removeElongated fn k c = .ok c') : SameNodes c c' := by
+  unfold removeElongated at h
+  exact sameNodes_removeElongatedLoop _ h
+
+theorem splitEdge_freeOk {fn : Fn R} {k : SplitConsts R} {c c' : Cell R} {e : Edge} {chk chk' : CheckSet}
+    (h : splitEdge fn k c e chk = .ok (c', chk')) (hab : e.n1 ≠ e.n2) (hf : FreeOk c) : FreeOk c' := by
+  obtain ⟨na, nb, ha, hb, hs⟩ := splitEdge_nodes h
+  exact FreeOk.of_sameNodes hs (splitNodes_freeOk _ ha hb hab hf)
+
+theorem mergeEdge_freeOk {fn : Fn R} {k : SplitConsts R} {c c' : Cell R} {e : Edge} {chk chk' : CheckSet}
+    (h : mergeEdge fn k c e chk = .ok (c', chk')) (hab : e.n1 ≠ e.n2)
+    (h1 : UsedAt c e.n1) (h2 : UsedAt c e.n2) (hf : FreeOk c) : FreeOk c' := by
+  obtain ⟨na, nb, ha, hb, hs⟩ := mergeEdge_nodes h
+  obtain ⟨na', ha', hua⟩ := h1
+  obtain ⟨nb', hb', hub⟩ := h2
+  rw [ha] at ha'; cases ha'
+  rw [hb] at hb'; cases hb'
+  exact FreeOk.of_sameNodes hs (mergeNodes_freeOk _ ha hb hua hub hab hf)
+
+abbrev Log (R : Type) := List (Bool × Nat × Nat × R)
+
+variable (fn : Fn R) (k : RefineConsts R) (lminSq lmaxSq : R)
+
+theorem loop_zero (c : Cell R) (chk : CheckSet) (iter : Nat) (log : Log R) :
+    refineMesh.loop fn k lminSq lmaxSq 0 c chk iter log = (c, .fuelOut, log) := by
+  unfold refineMesh.loop; rfl
+
+/-- the loop stops as soon as the check set is empty or `iter` reaches the number of edges -/
+theorem loop_stop (fuel : Nat) (c : Cell R) (chk : CheckSet) (iter : Nat) (log : Log R)
+    (h : chk = [] ∨ c.edges.length ≤ iter) :
+    refineMesh.loop fn k lminSq lmaxSq (fuel + 1) c chk iter log =
+      (c, if iter == c.edges.length then .threw .integrity else .returned, log) := by
+  unfold refineMesh.loop
+  have : (chk.isEmpty || !decide (iter < c.edges.length)) = true := by
+    rcases h with h | h
+    · simp [h]
+    · simp [Nat.not_lt.2 h]
+  simp only [this, if_true]
+
+/-- the squared length the loop tests -/
+def len2 (c : Cell R) (e : Edge) : R := V3.normSq (posOf c e.n1 - posOf c e.n2)
+
+theorem loop_cons (fuel : Nat) (c : Cell R) (e : Edge) (rest : CheckSet) (iter : Nat) (log : Log R)
+    (h : iter < c.edges.length) :
+    refineMesh.loop fn k lminSq lmaxSq (fuel + 1) c (e :: rest) iter log =
+      if lmaxSq < len2 c e then
+        match splitEdge fn k.split c e rest with
+        | .error x => (c, .threw x, log)
+        | .ok (c', chk') => refineMesh.loop fn k lminSq lmaxSq fuel c' chk' (iter + 1) ((true, e.n1, e.n2, len2 c e) :: log)
+      else if len2 c e < lminSq then
+        match canBeMerged c e with
+        | .error x => (c, .threw x, log)
+        | .ok false => refineMesh.loop fn k lminSq lmaxSq fuel c rest iter log
+        | .ok true =>
+          match mergeEdge fn k.split c e rest with
+          | .error x => (c, .threw x, log)
+          | .ok (c', chk') => refineMesh.loop fn k lminSq lmaxSq fuel c' chk' (iter + 1) ((false, e.n1, e.n2, len2 c e) :: log)
+      else refineMesh.loop fn k lminSq lmaxSq fuel c rest iter log := by
+  conv_lhs => unfold refineMesh.loop
+  have : ((e :: rest).isEmpty || !decide (iter < c.edges.length)) = false := by simp [h]
+  simp only [this]
+  rfl
+
+/-! ### steps of the loop -/
+
+/-- an iteration that performs no operation (edge inside the length band) drops exactly the head of the
+    check set and leaves the cell, `iter` and the log unchanged -/
+theorem noop_step_band (fuel : Nat) (c : Cell R) (e : Edge) (rest : CheckSet) (iter : Nat) (log : Log R)
+    (h : iter < c.edges.length) (h1 : ¬ lmaxSq < len2 c e) (h2 : ¬ len2 c e < lminSq) :
+    refineMesh.loop fn k lminSq lmaxSq (fuel + 1) c (e :: rest) iter log =
+      refineMesh.loop fn k lminSq lmaxSq fuel c rest iter log := by
+  rw [loop_cons _ _ _ _ _ _ _ _ _ _ h, if_neg h1, if_neg h2]
+
+/-- the same for a short edge that `can_be_merged` refuses -/
+theorem noop_step_refused (fuel : Nat) (c : Cell R) (e : Edge) (rest : CheckSet) (iter : Nat) (log : Log R)
+    (h : iter < c.edges.length) (h1 : ¬ lmaxSq < len2 c e) (h2 : len2 c e < lminSq)
+    (h3 : canBeMerged c e = .ok false) :
+    refineMesh.loop fn k lminSq lmaxSq (fuel + 1) c (e :: rest) iter log =
+      refineMesh.loop fn k lminSq lmaxSq fuel c rest iter log := by
+  rw [loop_cons _ _ _ _ _ _ _ _ _ _ h, if_neg h1, if_pos h2, h3]
+
+/-- a split increases `iter` by one and logs the squared length that decided -/
+theorem split_step (fuel : Nat) (c c' : Cell R) (e : Edge) (rest chk' : CheckSet) (iter : Nat) (log : Log R)
+    (h : iter < c.edges.length) (h1 : lmaxSq < len2 c e) (h3 : splitEdge fn k.split c e rest = .ok (c', chk')) :
+    refineMesh.loop fn k lminSq lmaxSq (fuel + 1) c (e :: rest) iter log =
+      refineMesh.loop fn k lminSq lmaxSq fuel c' chk' (iter + 1) ((true, e.n1, e.n2, len2 c e) :: log) := by
+  rw [loop_cons _ _ _ _ _ _ _ _ _ _ h, if_pos h1, h3]
+
+/-- a merge increases `iter` by one and logs the squared length that decided -/
+theorem merge_step (fuel : Nat) (c c' : Cell R) (e : Edge) (rest chk' : CheckSet) (iter : Nat) (log : Log R)
+    (h : iter < c.edges.length) (h1 : ¬ lmaxSq < len2 c e) (h2 : len2 c e < lminSq)
+    (h3 : canBeMerged c e = .ok true) (h4 : mergeEdge fn k.split c e rest = .ok (c', chk')) :
+    refineMesh.loop fn k lminSq lmaxSq (fuel + 1) c (e :: rest) iter log =
+      refineMesh.loop fn k lminSq lmaxSq fuel c' chk' (iter + 1) ((false, e.n1, e.n2, len2 c e) :: log) := by
+  rw [loop_cons _ _ _ _ _ _ _ _ _ _ h, if_neg h1, if_pos h2, h3]
+  simp only [h4]
+
+/-! ### selectivity -/
+
+/-- a log entry is justified: a split was decided by a squared length above `lmaxSq`, a merge by one below `lminSq` -/
+def Justified (p : Bool × Nat × Nat × R) : Prop :=
+  (p.1 = true → lmaxSq < p.2.2.2) ∧ (p.1 = false → p.2.2.2 < lminSq)
+
+theorem loop_selective (fuel : Nat) : ∀ (c : Cell R) (chk : CheckSet) (iter : Nat) (log : Log R),
+    (∀ p ∈ log, Justified lminSq lmaxSq p) →
+    ∀ p ∈ (refineMesh.loop fn k lminSq lmaxSq fuel c chk iter log).2.2, Justified lminSq lmaxSq p := by
+  induction fuel with
+  | zero => intro c chk iter log hl; rw [loop_zero]; exact hl
+  | succ fuel ih =>
+    intro c chk iter log hl
+    by_cases hs : chk = [] ∨ c.edges.length ≤ iter
+    · rw [loop_stop _ _ _ _ _ _ _ _ _ hs]; exact hl
+    · have hne : chk ≠ [] := fun h => hs (Or.inl h)
+      have hit : iter < c.edges.length := Nat.lt_of_not_le (fun h => hs (Or.inr h))
+      obtain ⟨e, rest, rfl⟩ := List.exists_cons_of_ne_nil hne
+      rw [loop_cons _ _ _ _ _ _ _ _ _ _ hit]
+      by_cases h1 : lmaxSq < len2 c e
+      · rw [if_pos h1]
+        cases hsp : splitEdge fn k.split c e rest with
+        | error x => exact hl
+        | ok r =>
+          obtain ⟨c', chk'⟩ := r
+          refine ih _ _ _ _ ?_
+          intro p hp
+          rcases List.mem_cons.1 hp with rfl | hp
+          · exact ⟨fun _ => h1, fun h => (by cases h)⟩
+          · exact hl p hp
+      · rw [if_neg h1]
+        by_cases h2 : len2 c e < lminSq
+        · rw [if_pos h2]
+          cases hcm : canBeMerged c e with
+          | error x => exact hl
+          | ok b =>
+            cases b with
+            | false => exact ih _ _ _ _ hl
+            | true =>
+              simp only
+              cases hme : mergeEdge fn k.split c e rest with
+              | error x => exact hl
+              | ok r =>
+                obtain ⟨c', chk'⟩ := r
+                refine ih _ _ _ _ ?_
+                intro p hp
+                rcases List.mem_cons.1 hp with rfl | hp
+                · exact ⟨fun h => (by cases h), fun _ => h2⟩
+                · exact hl p hp
+        · rw [if_neg h2]; exact ih _ _ _ _ hl
+
+/-! ### a conforming mesh is a fixpoint -/
+
+theorem loop_conforming (c : Cell R) (hne : c.edges ≠ []) : ∀ (chk : CheckSet) (fuel : Nat) (log : Log R),
+    (∀ e ∈ chk, ¬ lmaxSq < len2 c e ∧ ¬ len2 c e < lminSq) → chk.length + 1 ≤ fuel →
+    refineMesh.loop fn k lminSq lmaxSq fuel c chk 0 log = (c, .returned, log) := by
+  have hpos : 0 < c.edges.length := List.length_pos_iff.2 hne
+  intro chk
+  induction chk with
+  | nil =>
+    intro fuel log _ hf
+    obtain ⟨f, rfl⟩ : ∃ f, fuel = f + 1 := ⟨fuel - 1, by simp at hf; omega⟩
+    rw [loop_stop _ _ _ _ _ _ _ _ _ (Or.inl rfl)]
+    have : (0 == c.edges.length) = false := by
+      simp only [beq_eq_false_iff_ne]; omega
+    simp only [this]
+    rfl
+  | cons e rest ih =>
+    intro fuel log hc hf
+    obtain ⟨f, rfl⟩ : ∃ f, fuel = f + 1 := ⟨fuel - 1, by simp at hf; omega⟩
+    have he := hc e List.mem_cons_self
+    rw [noop_step_band _ _ _ _ _ _ _ _ _ _ hpos he.1 he.2]
+    exact ih f log (fun e' h' => hc e' (List.mem_cons_of_mem _ h')) (by simp at hf; omega)
+
+theorem loop_noedges (c : Cell R) (he : c.edges = []) (fuel : Nat) (chk : CheckSet) (log : Log R) :
+    refineMesh.loop fn k lminSq lmaxSq (fuel + 1) c chk 0 log = (c, .threw .integrity, log) := by
+  rw [loop_stop _ _ _ _ _ _ _ _ _ (Or.inr (by simp [he]))]
+  simp [he]
+
+theorem refineMesh_noswap (c : Cell R) (maxIter : Nat) :
+    refineMesh fn k lminSq lmaxSq false c maxIter = refineMesh.loop fn k lminSq lmaxSq maxIter c c.edges 0 [] := by
+  unfold refineMesh
+  simp
+
+/-! ### instrumented loop: counts iterations and operations -/
+
+structure Stats where
+  iters : Nat     -- iterations that passed the stop test
+  splits : Nat
+  merges : Nat
+  growM : Nat     -- Σ over the merges of (size of the check set after − size of the tail before), truncated at 0
+
+def Stats.zero : Stats := ⟨0, 0, 0, 0⟩
+
+/-- `refineMesh.loop` with counters -/
+def loopI : Nat → Cell R → CheckSet → Nat → Log R → (Cell R × Outcome × Log R) × Stats
+  | 0, c, _, _, log => ((c, .fuelOut, log), Stats.zero)
+  | _ + 1, c, [], iter, log =>
+    ((c, if iter == c.edges.length then .threw .integrity else .returned, log), Stats.zero)
+  | fuel + 1, c, e :: rest, iter, log =>
+    if c.edges.length ≤ iter then
+      ((c, if iter == c.edges.length then .threw .integrity else .returned, log), Stats.zero)
+    else if lmaxSq < len2 c e then
+      match splitEdge fn k.split c e rest with
+      | .error x => ((c, .threw x, log), ⟨1, 0, 0, 0⟩)
+      | .ok (c', chk') =>
+        let r := loopI fuel c' chk' (iter + 1) ((true, e.n1, e.n2, len2 c e) :: log)
+        (r.1, ⟨r.2.iters + 1, r.2.splits + 1, r.2.merges, r.2.growM⟩)
+    else if len2 c e < lminSq then
+      match canBeMerged c e with
+      | .error x => ((c, .threw x, log), ⟨1, 0, 0, 0⟩)
+      | .ok false =>
+        let r := loopI fuel c rest iter log
+        (r.1, ⟨r.2.iters + 1, r.2.splits, r.2.merges, r.2.growM⟩)
+      | .ok true =>
+        match mergeEdge fn k.split c e rest with
+        | .error x => ((c, .threw x, log), ⟨1, 0, 0, 0⟩)
+        | .ok (c', chk') =>
+          let r := loopI fuel c' chk' (iter + 1) ((false, e.n1, e.n2, len2 c e) :: log)
+          (r.1, ⟨r.2.iters + 1, r.2.splits, r.2.merges + 1, r.2.growM + (chk'.length - rest.length)⟩)
+    else
+      let r := loopI fuel c rest iter log
+      (r.1, ⟨r.2.iters + 1, r.2.splits, r.2.merges, r.2.growM⟩)
+
+/-- what the counters satisfy -/
+structure LoopSpec (fuel : Nat) (chk : CheckSet) (log : Log R) (res : Cell R × Outcome × Log R)
+    (r : (Cell R × Outcome × Log R) × Stats) : Prop where
+  same : r.1 = res
+  bound : r.2.iters ≤ chk.length + 4 * r.2.splits + r.2.growM
+  ops : r.1.2.2.length = log.length + r.2.splits + r.2.merges
+  le_fuel : r.2.iters ≤ fuel
+  fuelOut : r.1.2.1 = .fuelOut → r.2.iters = fuel
+
+theorem loopI_spec (fuel : Nat) : ∀ (c : Cell R) (chk : CheckSet) (iter : Nat) (log : Log R),
+    LoopSpec fuel chk log (refineMesh.loop fn k lminSq lmaxSq fuel c chk iter log)
+      (loopI fn k lminSq lmaxSq fuel c chk iter log) := by
+  induction fuel with
+  | zero =>
+    intro c chk iter log
+    rw [loop_zero]
+    exact ⟨rfl, Nat.zero_le _, rfl, Nat.le_refl _, fun _ => rfl⟩
+  | succ fuel ih =>
+    intro c chk iter log
+    cases chk with
+    | nil =>
+      rw [loop_stop _ _ _ _ _ _ _ _ _ (Or.inl rfl)]
+      refine ⟨rfl, Nat.zero_le _, rfl, Nat.zero_le _, ?_⟩
+      intro h; simp only [loopI] at h; split at h <;> cases h
+    | cons e rest =>
+      by_cases hs : c.edges.length ≤ iter
+      · rw [loop_stop _ _ _ _ _ _ _ _ _ (Or.inr hs)]
+        simp only [loopI, if_pos hs]
+        refine ⟨rfl, Nat.zero_le _, rfl, Nat.zero_le _, ?_⟩
+        intro h; simp only at h; split at h <;> cases h
+      · rw [loop_cons _ _ _ _ _ _ _ _ _ _ (Nat.lt_of_not_le hs)]
+        simp only [loopI, if_neg hs]
+        by_cases h1 : lmaxSq < len2 c e
+        · simp only [if_pos h1]
+          cases hsp : splitEdge fn k.split c e rest with
+          | error x =>
+            exact ⟨rfl, by simp, rfl, by simp, fun h => by cases h⟩
+          | ok r =>
+            obtain ⟨c', chk'⟩ := r
+            have hl := splitEdge_chk_length hsp
+            have := ih c' chk' (iter + 1) ((true, e.n1, e.n2, len2 c e) :: log)
+            refine ⟨this.same, ?_, ?_, ?_, ?_⟩
+            · have := this.bound; simp only [List.length_cons]; omega
+            · have := this.ops; simp only [List.length_cons] at this ⊢; omega
+            · have := this.le_fuel; simp only; omega
+            · intro h; have := this.fuelOut h; simp only; omega
+        · simp only [if_neg h1]
+          by_cases h2 : len2 c e < lminSq
+          · simp only [if_pos h2]
+            cases hcm : canBeMerged c e with
+            | error x => exact ⟨rfl, by simp, rfl, by simp, fun h => by cases h⟩
+            | ok b =>
+              cases b with
+              | false =>
+                have := ih c rest iter log
+                refine ⟨this.same, ?_, this.ops, ?_, ?_⟩
+                · have := this.bound; simp only [List.length_cons]; omega
+                · have := this.le_fuel; simp only; omega
+                · intro h; have := this.fuelOut h; simp only; omega
+              | true =>
+                simp only
+                cases hme : mergeEdge fn k.split c e rest with
+                | error x => exact ⟨rfl, by simp, rfl, by simp, fun h => by cases h⟩
+                | ok r =>
+                  obtain ⟨c', chk'⟩ := r
+                  have := ih c' chk' (iter + 1) ((false, e.n1, e.n2, len2 c e) :: log)
+                  refine ⟨this.same, ?_, ?_, ?_, ?_⟩
+                  · have := this.bound; simp only [List.length_cons]; omega
+                  · have := this.ops; simp only [List.length_cons] at this ⊢; omega
+                  · have := this.le_fuel; simp only; omega
+                  · intro h; have := this.fuelOut h; simp only; omega
+          · simp only [if_neg h2]
+            have := ih c rest iter log
+            refine ⟨this.same, ?_, this.ops, ?_, ?_⟩
+            · have := this.bound; simp only [List.length_cons]; omega
+            · have := this.le_fuel; simp only; omega
+            · intro h; have := this.fuelOut h; simp only; omega
+
+/-! ### the operations of a pass, and what the pass as a whole conserves -/
+
+
+/-- the operations `refineMesh.loop` performs: (cell it is applied to, edge, split?) in execution order -/
+def loopOps : Nat → Cell R → CheckSet → Nat → List (Cell R × Edge × Bool)
+  | 0, _, _, _ => []
+  | _ + 1, _, [], _ => []
+  | fuel + 1, c, e :: rest, iter =>
+    if c.edges.length ≤ iter then []
+    else if lmaxSq < len2 c e then
+      match splitEdge fn k.split c e rest with
+      | .error _ => []
+      | .ok (c', chk') => (c, e, true) :: loopOps fuel c' chk' (iter + 1)
+    else if len2 c e < lminSq then
+      match canBeMerged c e with
+      | .error _ => []
+      | .ok false => loopOps fuel c rest iter
+      | .ok true =>
+        match mergeEdge fn k.split c e rest with
+        | .error _ => []
+        | .ok (c', chk') => (c, e, false) :: loopOps fuel c' chk' (iter + 1)
+    else loopOps fuel c rest iter
+
+/-- the operated edge joins two distinct live nodes -/
+def EdgeLive (c : Cell R) (e : Edge) : Prop := e.n1 ≠ e.n2 ∧ UsedAt c e.n1 ∧ UsedAt c e.n2
+
+/-- a property of cells that every successful split and collapse of a live edge preserves is preserved by the loop -/
+theorem loop_preserves (P : Cell R → Cell R → Prop) (Q : Cell R → Edge → Bool → Prop)
+    (hQ : ∀ c e b, Q c e b → EdgeLive c e) (hrefl : ∀ c, P c c)
+    (htrans : ∀ a b c, P a b → P b c → P a c)
+    (hsplit : ∀ c e rest c' chk', FreeOk c → Q c e true → splitEdge fn k.split c e rest = .ok (c', chk') → P c c')
+    (hmerge : ∀ c e rest c' chk', FreeOk c → Q c e false → mergeEdge fn k.split c e rest = .ok (c', chk') → P c c')
+    (fuel : Nat) : ∀ (c : Cell R) (chk : CheckSet) (iter : Nat) (log : Log R), FreeOk c →
+      (∀ op ∈ loopOps fn k lminSq lmaxSq fuel c chk iter, Q op.1 op.2.1 op.2.2) →
+      P c (refineMesh.loop fn k lminSq lmaxSq fuel c chk iter log).1
+      ∧ FreeOk (refineMesh.loop fn k lminSq lmaxSq fuel c chk iter log).1 := by
+  induction fuel with
+  | zero => intro c chk iter log hf _; rw [loop_zero]; exact ⟨hrefl c, hf⟩
+  | succ fuel ih =>
+    intro c chk iter log hf hops
+    cases chk with
+    | nil => rw [loop_stop _ _ _ _ _ _ _ _ _ (Or.inl rfl)]; exact ⟨hrefl c, hf⟩
+    | cons e rest =>
+      by_cases hs : c.edges.length ≤ iter
+      · rw [loop_stop _ _ _ _ _ _ _ _ _ (Or.inr hs)]; exact ⟨hrefl c, hf⟩
+      · rw [loop_cons _ _ _ _ _ _ _ _ _ _ (Nat.lt_of_not_le hs)]
+        simp only [loopOps, if_neg hs] at hops
+        by_cases h1 : lmaxSq < len2 c e
+        · simp only [if_pos h1] at hops ⊢
+          cases hsp : splitEdge fn k.split c e rest with
+          | error x => exact ⟨hrefl c, hf⟩
+          | ok r =>
+            obtain ⟨c', chk'⟩ := r
+            simp only [hsp] at hops
+            have hq : Q c e true := hops _ List.mem_cons_self
+            have hl : EdgeLive c e := hQ _ _ _ hq
+            have hf' := splitEdge_freeOk hsp hl.1 hf
+            have := ih c' chk' (iter + 1) ((true, e.n1, e.n2, len2 c e) :: log) hf'
+              (fun op hop => hops op (List.mem_cons_of_mem _ hop))
+            exact ⟨htrans _ _ _ (hsplit c e rest c' chk' hf hq hsp) this.1, this.2⟩
+        · simp only [if_neg h1] at hops ⊢
+          by_cases h2 : len2 c e < lminSq
+          · simp only [if_pos h2] at hops ⊢
+            cases hcm : canBeMerged c e with
+            | error x => exact ⟨hrefl c, hf⟩
+            | ok b =>
+              cases b with
+              | false =>
+                simp only [hcm] at hops
+                exact ih c rest iter log hf hops
+              | true =>
+                simp only [hcm] at hops ⊢
+                cases hme : mergeEdge fn k.split c e rest with
+                | error x => exact ⟨hrefl c, hf⟩
+                | ok r =>
+                  obtain ⟨c', chk'⟩ := r
+                  simp only [hme] at hops
+                  have hq : Q c e false := hops _ List.mem_cons_self
+                  have hl : EdgeLive c e := hQ _ _ _ hq
+                  have hf' := mergeEdge_freeOk hme hl.1 hl.2.1 hl.2.2 hf
+                  have := ih c' chk' (iter + 1) ((false, e.n1, e.n2, len2 c e) :: log) hf'
+                    (fun op hop => hops op (List.mem_cons_of_mem _ hop))
+                  exact ⟨htrans _ _ _ (hmerge c e rest c' chk' hf hq hme) this.1, this.2⟩
+          · simp only [if_neg h2] at hops ⊢
+            exact ih c rest iter log hf hops
+
+/-- the growth of the check set caused by the collapses of a run is bounded by the operation counts and the size of
+    the face array at the start -/
+theorem loopI_growM (fuel : Nat) : ∀ (c : Cell R) (chk : CheckSet) (iter : Nat) (log : Log R),
+    (loopI fn k lminSq lmaxSq fuel c chk iter log).2.growM ≤
+      (loopI fn k lminSq lmaxSq fuel c chk iter log).2.merges *
+        (2 * (c.faces.size + 4 * (loopI fn k lminSq lmaxSq fuel c chk iter log).2.splits + 2)) := by
+  induction fuel with
+  | zero => intro c chk iter log; simp [loopI, Stats.zero]
+  | succ fuel ih =>
+    intro c chk iter log
+    cases chk with
+    | nil => simp [loopI, Stats.zero]
+    | cons e rest =>
+      by_cases hs : c.edges.length ≤ iter
+      · simp [loopI, if_pos hs, Stats.zero]
+      · simp only [loopI, if_neg hs]
+        by_cases h1 : lmaxSq < len2 c e
+        · simp only [if_pos h1]
+          cases hsp : splitEdge fn k.split c e rest with
+          | error x => simp
+          | ok r =>
+            obtain ⟨c', chk'⟩ := r
+            have hF := splitEdge_facesSize hsp
+            have := ih c' chk' (iter + 1) ((true, e.n1, e.n2, len2 c e) :: log)
+            simp only
+            refine Nat.le_trans this (Nat.mul_le_mul_left _ ?_)
+            omega
+        · simp only [if_neg h1]
+          by_cases h2 : len2 c e < lminSq
+          · simp only [if_pos h2]
+            cases hcm : canBeMerged c e with
+            | error x => simp
+            | ok b =>
+              cases b with
+              | false => exact ih c rest iter log
+              | true =>
+                simp only
+                cases hme : mergeEdge fn k.split c e rest with
+                | error x => simp
+                | ok r =>
+                  obtain ⟨c', chk'⟩ := r
+                  have hsz := mergeEdge_sizes hme
+                  have := ih c' chk' (iter + 1) ((false, e.n1, e.n2, len2 c e) :: log)
+                  rw [hsz.1] at this
+                  simp only
+                  rw [Nat.succ_mul]
+                  refine Nat.add_le_add this ?_
+                  have := hsz.2
+                  omega
+          · simp only [if_neg h2]
+            exact ih c rest iter log
 end Simu.C11
